@@ -29,8 +29,14 @@ Example c17_timeout_example :
   parse_timeout proxy_default_global_ms
     {| t_route_g := 200; t_route_t := 80; t_hdr_g := Some 160; t_hdr_t := None; t_var_g := None; t_var_t := Some 160 |} = (160, 0) /\
   parse_timeout proxy_default_global_ms
-    {| t_route_g := 0; t_route_t := 80; t_hdr_g := None; t_hdr_t := None; t_var_g := None; t_var_t := None |} = (60000, 80).
-Proof. split; reflexivity. Qed.
+    {| t_route_g := 0; t_route_t := 80; t_hdr_g := None; t_hdr_t := None; t_var_g := None; t_var_t := None |} = (60000, 80) /\
+  (* a source that is present with the value 0 still takes precedence over the lower ones, and 0 then means "not set": the
+     default applies (not the route's 200), and the per-try value is judged against that default *)
+  parse_timeout proxy_default_global_ms
+    {| t_route_g := 200; t_route_t := 0; t_hdr_g := Some 0; t_hdr_t := Some 300; t_var_g := None; t_var_t := None |} = (60000, 300) /\
+  parse_timeout proxy_default_global_ms
+    {| t_route_g := 200; t_route_t := 90; t_hdr_g := None; t_hdr_t := None; t_var_g := Some 0; t_var_t := Some 0 |} = (60000, 0).
+Proof. repeat split; reflexivity. Qed.
 
 (* ---- retry conditions: doRetryCheck, for EVERY policy ---- *)
 (* on a response: only with retry_on, and only for a listed status (or, with no list, a 5xx) *)
